@@ -510,13 +510,14 @@ def contracts():
     for t in (0, 2):
         cs += [IndexLookup(t), MaskedLookup(t), ReorderedLookup(t), UniformDerivedLookup(t), DerivedLookup(t)]
     cs += [ChainedLookup(0), ChainedLookup(2), IndexLookupNegative(), IndexLookupForeign(), MaskedForeign(), AxisInverse('unmap-after-map'), AxisInverse('map-after-unmap')]
-    from contracts import c11_chain, c11_swap, c11_struct, c11_plain, c11_seq, c11_get
+    from contracts import c11_chain, c11_swap, c11_struct, c11_plain, c11_seq, c11_get, c11_basearr
     cs += c11_chain.contracts()
     cs += c11_swap.contracts()
     cs += c11_struct.contracts()
     cs += c11_plain.contracts()
     cs += c11_seq.contracts()
     cs += c11_get.contracts()
+    cs += c11_basearr.contracts()
     return cs
 
 
